@@ -24,6 +24,8 @@ import (
 	"github.com/gmrtd/gmrtd/oid"
 	"github.com/gmrtd/gmrtd/password"
 	"github.com/gmrtd/gmrtd/tlv"
+
+	"verifharness/evid"
 )
 
 func rep(kv ...any) func() map[string]any {
@@ -56,8 +58,15 @@ func runTlvDecode(t TB, data []byte) int {
 	if (err == nil) != sc.ok {
 		// the mirror walker decides the known-finding classes; if it disagrees
 		// with the library about acceptance the harness is unreliable.
-		evidInfra(t, "BER mirror disagrees with tlv.Decode on %s: lib err=%v mirror ok=%v", hx(data), err, sc.ok)
-		return 0
+		if isOpen(kfLie) || isOpen(kfOid) || isOpen(kfString) {
+			evidInfra(t, "BER mirror disagrees with tlv.Decode on %s: lib err=%v mirror ok=%v", hx(data[:min(len(data), 200)]), err, sc.ok)
+			return 0
+		}
+		// no finding is open, so nothing is excluded on the mirror's word: the disagreement (e.g. a
+		// decoder whose limits moved) is recorded and the no-panic / allocation oracles go on
+		if !fuzzing {
+			evid.Count("ber-mirror-disagrees(informative)", 1)
+		}
 	}
 	if err != nil || nodes == nil {
 		return 0
